@@ -16,7 +16,9 @@ use std::cell::RefCell;
 
 pub const SWEEP_EPISODES: u64 = 4096;
 const VALUES_PER_EPISODE: u64 = 65536 / SWEEP_EPISODES;
-const BUF_LEN: usize = 4 * 65536 + 64;
+/// one length-field period (65536 words)
+pub const PERIOD: usize = 4 * 65536;
+const BUF_LEN: usize = 2 * PERIOD + 64;
 
 thread_local! {
     static BUF: RefCell<Vec<u8>> = RefCell::new(vec![0u8; BUF_LEN]);
@@ -123,6 +125,11 @@ pub fn packet_frames(v: u32, with_sdes: bool) -> Vec<Frame> {
                 out.push(Frame { b0, pt, v: v16, delta, lead: 0, trail: false });
             }
         }
+        // a surplus of exactly one period of the 16-bit word count: a comparison done in the
+        // field's own width cannot see it
+        if is_edge_value(v) && matches!(pt, 201 | 204 | 206 | 207) {
+            out.push(Frame { b0: 0x80, pt, v: v16, delta: PERIOD as i32, lead: 0, trail: false });
+        }
     }
     out
 }
@@ -137,6 +144,12 @@ pub fn compound_frames(v: u32) -> Vec<Frame> {
                 out.push(Frame { b0: 0x80, pt, v: v16, delta, lead, trail: false });
             }
             out.push(Frame { b0: 0x80, pt, v: v16, delta: 0, lead, trail: true });
+            // one period of zero bytes behind the tile: 65536 more four-byte tiles (version 0),
+            // i.e. a chain longer than any 16-bit counter
+            if is_key_value(v) && pt == 207 {
+                out.push(Frame { b0: 0x80, pt, v: v16, delta: PERIOD as i32, lead, trail: false });
+                out.push(Frame { b0: 0x80, pt, v: v16, delta: PERIOD as i32 - 4, lead, trail: false });
+            }
         }
     }
     out
